@@ -661,7 +661,7 @@ func c14dohOnce(m map[string]string) c14outcome {
 		case "ok":
 			w.Header().Set("Content-Type", "application/dns-message")
 			w.Write(c14reply(q))
-		case "gar":
+		case "gar", "resp":
 			w.Header().Set("Content-Type", "application/dns-message")
 			w.Write(c14garbage(0))
 		case "e500":
@@ -752,6 +752,8 @@ func c14faultsOnce(m map[string]string) c14outcome {
 		return c14idlefireRun(m)
 	case m["tr"] == "udp":
 		return c14udpOnce(m)
+	case m["tr"] == "https" && (m["fault"] == "busyclose" || (m["fault"] == "idleclose" && m["k"] != "")):
+		return c14dohStaleOnce(m)
 	case m["tr"] == "http" || m["tr"] == "https":
 		return c14dohOnce(m)
 	case m["tr"] == "quic" || m["tr"] == "h3":
@@ -812,8 +814,8 @@ func c14matrix(tr string) []c14fault {
 		add("noaccept", "gB", "-")
 		add("app", "fsil", "-")
 		add("app", "fhalf", "-")
-		add("app", "fgar", "-")
-		add("e500", "fgar", "-")
+		add("app", "fresp", "-")
+		add("e500", "fresp", "-")
 		add("app", "ffin", "-")
 		add("rawfin", "gR", "-")
 		add("rawrst", "gR", "-")
